@@ -449,7 +449,8 @@ def _expr_run(res: CheckResult, layouts: bool) -> None:
             ("guard patterns (later operands defined only if earlier ones hold)", E.fam_guards(rng, budget),
              10 if res.tier == "quick" else 24),
             ("calls returning classes; comparison chains over calls", E.fam_typeof(rng), 0),
-            ("a variable named like a builtin and bound to None, behind guards", E.fam_builtin_named(), 0)]
+            ("a variable named like a builtin and bound to None, behind guards", E.fam_builtin_named(), 0),
+            ("formatted string literals over values that format unlike str()", E.fam_fstr(), 0)]
     for name, exprs, per in fams:
         cases = E.make_cases(exprs, rng, envs_per_expr=per)
         r, viol, py = E.model_check_expr(cases)
